@@ -153,7 +153,7 @@ Inductive robs :=
 | OVal (v : N)
 | OBuiltin            (* a Python builtin object *)
 | OMod                (* a module object *)
-| OErr (e : N).       (* 1 unresolved, 2 private, 3 AttributeError, 9 other *)
+| OErr (e : N).       (* 1 unresolved, 2 private, 3 AttributeError, 4 bare AssertionError of the analyzer, 9 other *)
 
 Definition robs_eqb (a b : robs) : bool :=
   match a, b with
@@ -167,6 +167,7 @@ Definition robs_eqb (a b : robs) : bool :=
 Definition E_UNRESOLVED : N := 1.
 Definition E_PRIVATE : N := 2.
 Definition E_ATTR : N := 3.
+Definition E_ASSERT : N := 4.
 Definition E_OTHER : N := 9.
 
 Definition uses_root (md : mode) (fl : flags) : bool :=
@@ -183,6 +184,9 @@ Definition read_ok (st : sstate) (md : mode) (rq : readreq) (o : robs) : bool :=
   match resolve (locals_of loc) st rns sp with
   | RLocal => match loc with Some (_, v) => robs_eqb o (OVal v) | None => false end
   | RVar k =>
+      if is_private st k && negb (str_eqb (fst k) rns)
+      then robs_eqb o (OErr E_PRIVATE)               (* private Vars are unreachable from other namespaces *)
+      else
       match aget k (s_vars st) with
       | Some r =>
           robs_eqb o (OVal (v_root r))
@@ -191,7 +195,9 @@ Definition read_ok (st : sstate) (md : mode) (rq : readreq) (o : robs) : bool :=
       end
   | RBuiltin => robs_eqb o OBuiltin
   | RPrivate => robs_eqb o (OErr E_PRIVATE)
-  | RUnresolved => robs_eqb o (OErr E_UNRESOLVED)
+  (* an unresolvable symbol is a compile-time error; analyzer.py:3857 asserts that the munged
+     name is not a global of the module before raising it, so the error may be that assertion *)
+  | RUnresolved => robs_eqb o (OErr E_UNRESOLVED) || robs_eqb o (OErr E_ASSERT)
   end.
 
 (** ---- "the value most recently given to a Var", read off the history alone ---- *)
